@@ -1,3 +1,5 @@
+import SlipVerif.Model.Lambda
 import SlipVerif.Model.Num
+import SlipVerif.Driver.Lambda
 import SlipVerif.Driver.Num
 import SlipVerif.Driver.Util
